@@ -132,7 +132,16 @@ def frame_pointwise(ctx, fn, h, w, prim, be, patterns=None):
             by = dict(zip(segs, acts))
             hor = cspuz.array.BoolArray2D([[by[("h", y, x)] for x in range(w)] for y in range(h + 1)]) if w else None
             ver = cspuz.array.BoolArray2D([[by[("v", y, x)] for x in range(w + 1)] for y in range(h)]) if h else None
-            fr = cspuz.BoolGridFrame(s, h, w, horizontal=hor, vertical=ver)
+            side = ctx.rng.choice(["both", "both", "h", "v"])
+            if side == "h" and hor is not None:
+                # only one array is the caller's; the other is the frame's own and is pinned through the frame
+                fr = cspuz.BoolGridFrame(s, h, w, horizontal=hor)
+                pins = pins + [(fr.vertical[y, x] if p else ~fr.vertical[y, x]) for (k, y, x), p in zip(segs, pattern) if k == "v"]
+            elif side == "v" and ver is not None:
+                fr = cspuz.BoolGridFrame(s, h, w, vertical=ver)
+                pins = pins + [(fr.horizontal[y, x] if p else ~fr.horizontal[y, x]) for (k, y, x), p in zip(segs, pattern) if k == "h"]
+            else:
+                fr = cspuz.BoolGridFrame(s, h, w, horizontal=hor, vertical=ver)
             s.ensure(pins)
             ctx.count(f"{tag}.frame_given_arrays")
         else:
